@@ -14,7 +14,9 @@ tvars == <<nn, lab, edges, l, sid, used, failed>>
 SeqToSet(s) == {s[i] : i \in DOMAIN s}
 \* print the run that is not explained (debugging aid; prints only on rejection)
 Explain(ok, what, r) == IF ok THEN TRUE ELSE PrintT(<<"UNEXPLAINED", sid, what, r.via>>) /\ FALSE
-AllRuns(what, Ok(_)) == \A i \in DOMAIN Ev.runs : Explain(Ok(Ev.runs[i]), what, Ev.runs[i])
+\* "= TRUE": TLC then evaluates the check as a state predicate (quantifiers short-circuit) instead of enumerating every
+\* witness of every \E as a separate successor state
+AllRuns(what, Ok(_)) == (\A i \in DOMAIN Ev.runs : Explain(Ok(Ev.runs[i]), what, Ev.runs[i])) = TRUE
 
 -----------------------------------------------------------------------------
 CompRunOK(r) ==
@@ -23,16 +25,23 @@ CompRunOK(r) ==
     /\ r.hasGroups => GroupsOK(g, r.groups, r.kind)
 
 PathRunOK(r) ==
-    LET g == Proj("", "", r.wp) IN
-    /\ Len(r.res) = nn * nn
-    /\ {<<r.res[i].s, r.res[i].t>> : i \in DOMAIN r.res} = (1..nn) \X (1..nn)
-    /\ \A i \in DOMAIN r.res :
-          LET x == r.res[i] IN x.exact /\ PathResultOK(g, r.metric, x.s, x.t, x.found, x.cost, x.path)
+    LET g == Proj("", "", r.wp)
+        PF == Force([s \in g.V |-> PathsFrom(g, s)])          \* every simple path, by source
+    IN /\ Len(r.res) = nn * nn
+       /\ {<<r.res[i].s, r.res[i].t>> : i \in DOMAIN r.res} = (1..nn) \X (1..nn)
+       /\ \A i \in DOMAIN r.res :
+             LET x == r.res[i]
+                 P == {p \in PF[x.s] : p[Len(p)] = x.t}
+             IN x.exact /\ PathResultOKIn(g, P, r.metric, x.s, x.t, x.found, x.cost, x.path)
 AllPathsRunOK(r) ==
-    LET g == Proj("", "", "") IN
-    /\ Len(r.res) = nn * nn
-    /\ \A i \in DOMAIN r.res :
-          LET x == r.res[i] IN x.costsMatch /\ SeqToSet(x.paths) = AllShortest(g, x.s, x.t)
+    LET g == Proj("", "", "")
+        PF == Force([s \in g.V |-> PathsFrom(g, s)])
+    IN /\ Len(r.res) = nn * nn
+       /\ \A i \in DOMAIN r.res :
+             LET x == r.res[i]
+                 P == {p \in PF[x.s] : p[Len(p)] = x.t}
+             IN /\ x.costsMatch
+                /\ SeqToSet(x.paths) = (IF P = {} THEN {} ELSE {p \in P : HopCost(p) = Min({HopCost(q) : q \in P})})
 
 FlowRunOK(r) ==
     LET g == Proj("", "", r.wp) IN
@@ -57,11 +66,12 @@ LccRunOK(r) ==
 
 CdlpRunOK(r) ==
     LET g == Proj(r.label, r.type, "")
-        L == Cdlp(g, r.k)
+        T == CdlpTrace(g, r.k)
+        L == T[r.k + 1]
     IN /\ Len(r.nodes) = Cardinality(g.V) /\ SeqToSet(r.nodes) = g.V /\ Len(r.lab) = Len(r.nodes)
        /\ \A i \in DOMAIN r.nodes : r.lab[i] = L[r.nodes[i]]
        \* the reported number of iterations: at most k, and stopping there gives the same labelling
-       /\ r.iters \in 0..r.k /\ (g.V # {} => Cdlp(g, r.iters) = L)
+       /\ r.iters \in 0..r.k /\ T[r.iters + 1] = L
 
 PRCfgOf(r) == [dn |-> r.dn, dd |-> r.dd, iters |-> r.iters, tolD |-> r.tolD, dang |-> r.dang]
 PageRankRunOK(r) == PageRankOK(Proj(r.label, r.type, ""), PRCfgOf(r), r.nodes, r.val)
@@ -113,7 +123,7 @@ T_Rep == IsEv("Rep") /\ Keep /\ AllRuns("Rep", RepRunOK) /\ Same
 OutMap(wt) == [u \in 1..nn |-> {<<edges[i].d, IF wt THEN edges[i].w ELSE 1>> : i \in {j \in DOMAIN edges : edges[j].s = u}}]
 T_RandGraph == /\ IsEv("RandGraph")
                /\ nn' = Ev.n /\ lab' = [v \in 1..Ev.n |-> {"N"}] /\ edges' = Ev.edges
-               /\ \A i \in DOMAIN Ev.edges : Ev.edges[i].s \in 1..Ev.n /\ Ev.edges[i].d \in 1..Ev.n
+               /\ (\A i \in DOMAIN Ev.edges : Ev.edges[i].s \in 1..Ev.n /\ Ev.edges[i].d \in 1..Ev.n) = TRUE
                /\ Same
 
 \* Single-source results for ALL targets certify each other COMPLETELY: every found path is a walk whose hops realise
@@ -131,7 +141,7 @@ CertPathsOK ==
              /\ \A i \in 1..(Len(p) - 1) : /\ p[i] \in 1..nn /\ p[i + 1] \in 1..nn /\ res[p[i]].found /\ res[p[i + 1]].found
                                            /\ <<p[i + 1], res[p[i + 1]].cost - res[p[i]].cost>> \in om[p[i]]
        /\ \A u \in 1..nn : res[u].found => \A e \in om[u] : res[e[1]].found /\ res[e[1]].cost <= res[u].cost + e[2]
-T_CertPaths == IsEv("CertPaths") /\ Keep /\ CertPathsOK /\ Same
+T_CertPaths == IsEv("CertPaths") /\ Keep /\ (CertPathsOK = TRUE) /\ Same
 
 \* WCC labelling: classes are closed under relationships (so each is a union of true components) and every node is
 \* joined to the smallest node of its class by a real undirected path (so each is inside one true component): COMPLETE.
@@ -143,7 +153,7 @@ CertWccOK ==
     /\ Len(c) = nn /\ Len(Ev.paths) = nn
     /\ \A j \in DOMAIN edges : c[edges[j].s] = c[edges[j].d]
     /\ \A v \in 1..nn : LET p == Ev.paths[v] IN Len(p) >= 1 /\ p[1] = RepOf(c, v) /\ p[Len(p)] = v /\ UndirectedWalk(p)
-T_CertWcc == IsEv("CertWcc") /\ Keep /\ CertWccOK /\ Same
+T_CertWcc == IsEv("CertWcc") /\ Keep /\ (CertWccOK = TRUE) /\ Same
 \* SCC labelling: every node and the smallest node of its class reach each other by real directed paths (same class =>
 \* mutually reachable) and a ranking of the classes never decreases along a relationship and strictly increases between
 \* classes (so no two classes are mutually reachable): COMPLETE.
@@ -158,7 +168,7 @@ CertSccOK ==
     /\ \A j \in DOMAIN edges : LET a == edges[j].s
                                    b == edges[j].d
                                IN IF c[a] = c[b] THEN TRUE ELSE Ev.rank[a] < Ev.rank[b]
-T_CertScc == IsEv("CertScc") /\ Keep /\ CertSccOK /\ Same
+T_CertScc == IsEv("CertScc") /\ Keep /\ (CertSccOK = TRUE) /\ Same
 
 \* max flow: WEAKER than C26 -- only the upper bound by every sampled s-t cut, non-negativity and zero iff unreachable
 \* (reachability as reported by the crate's bfs, itself certified by CertPaths on other sources only).
@@ -168,7 +178,7 @@ CertFlowOK ==
           LET S == SeqToSet(Ev.cuts[k])
               X == {j \in DOMAIN edges : edges[j].s \in S /\ edges[j].d \notin S}
           IN (Ev.s \in S /\ Ev.t \notin S) => Ev.val <= SumF([j \in X |-> edges[j].w], X)
-T_CertFlow == IsEv("CertFlow") /\ Keep /\ CertFlowOK /\ Same
+T_CertFlow == IsEv("CertFlow") /\ Keep /\ (CertFlowOK = TRUE) /\ Same
 
 \* PageRank / CDLP / triangles / LCC on a random graph and on k copies of it crossing the rayon threshold, 1 and 8
 \* threads: all runs of one configuration must agree (the sequential run is the reference; it is NOT compared with the
@@ -185,8 +195,8 @@ RepRandOK ==
         IN /\ a.total * b.copies = b.total * a.copies
            /\ Len(a.vals) = Len(b.vals)
            /\ \A v \in DOMAIN a.vals : \A x \in SeqToSet(a.vals[v]), y \in SeqToSet(b.vals[v]) : Abs(x - y) <= tol
-T_RepRand == /\ IsEv("RepRand") /\ Keep /\ RepRandOK
-             /\ \A i \in DOMAIN Ev.runs : Ev.runs[i].algo = "tri" \/ (Len(Ev.runs[i].vals) = nn /\ \A v \in 1..nn : Ev.runs[i].vals[v] # <<>>)
+T_RepRand == /\ IsEv("RepRand") /\ Keep /\ (RepRandOK = TRUE)
+             /\ (\A i \in DOMAIN Ev.runs : Ev.runs[i].algo = "tri" \/ (Len(Ev.runs[i].vals) = nn /\ \A v \in 1..nn : Ev.runs[i].vals[v] # <<>>)) = TRUE
              /\ Same
 
 TNext == T_Fail \/ T_Reset \/ T_AddNode \/ T_AddEdge \/ T_Comp \/ T_Path \/ T_AllPaths \/ T_Flow \/ T_Mst \/ T_Tri \/ T_Lcc
